@@ -55,6 +55,10 @@ proof fn lemma_fidx<T>(ks: Seq<Option<T>>, st: Seq<u16>, k: T, p: int)
     if i != p { assert(ks[i] != ks[p]); }
 }
 
+// R12b: a DOCUMENTED panic ("# Panics: if max_map_size is not a power of two") is modelled as 'returns only if the condition holds':
+// the condition is a tagged POSTCONDITION (`*_validated`) instead of a precondition, so weakening or removing the check is noticed.
+// Body = the original statement.
+#[verifier::external_body] fn vx_documented_panic(c: bool) ensures c { assert!(c); }
 pub assume_specification [ usize::is_power_of_two ] (n: usize) -> (r: bool) ensures r == exists|j: nat| j < 64 && n == pow2(j);
 pub assume_specification [ usize::trailing_zeros ] (n: usize) -> (r: u32) ensures forall|j: nat| j < 64 && n == pow2(j) ==> r == j;
 // ================= finite sums over a set (this unit) =================
@@ -395,10 +399,17 @@ lg_max_map_size : lg_max , cur_map_cap , offset : 0 , stream_weight : 0 , sample
 
 
 
-    fn new ( max_map_size : usize ) -> ( r : Self ) requires eq_law :: < T > ( ) , exists | lg : u8 | lg <= 40 && max_map_size == pow2 ( lg as nat ) , ensures r . wf ( ) , max_map_size == pow2 ( r . lg_max_map_size as nat ) || r . lg_max_map_size == LG_MIN_MAP_SIZE ,
+    fn new ( max_map_size : usize ) -> ( r : Self ) requires eq_law :: < T > ( ) , max_map_size <= pow2 ( 40 ) , ensures r . wf ( ) ,
+/*@C07.new.pow2_validated*/ exists | j : nat | j < 64 && max_map_size == pow2 ( j ) , max_map_size == pow2 ( r . lg_max_map_size as nat ) || r . lg_max_map_size == LG_MIN_MAP_SIZE ,
 /*@C07.empty_model*/ r . models ( Seq :: < ( T , u64 ) > :: empty ( ) ) , {
-let ghost lg = choose | lg : u8 | lg <= 40 && max_map_size == pow2 ( lg as nat ) ;
-assert! ( max_map_size . is_power_of_two ( ) ) ;
+vx_documented_panic ( max_map_size . is_power_of_two ( ) ) ;
+assert ( /*@C07.new.pow2_validated*/ exists | j : nat | j < 64 && max_map_size == pow2 ( j ) ) ;
+let ghost lg = choose | j : nat | j < 64 && max_map_size == pow2 ( j ) ;
+proof {
+if lg > 40 {
+vstd :: arithmetic :: power2 :: lemma_pow2_strictly_increases ( 40 , lg ) ;
+}
+}
 let lg_max_map_size = max_map_size . trailing_zeros ( ) as u8 ;
 Self :: with_lg_map_sizes ( lg_max_map_size , LG_MIN_MAP_SIZE ) }
 
